@@ -99,7 +99,7 @@ theorem cp_eq_sum_partial {s s' : State} {op : Op} (hi : Inv12 s) (h : stepRel s
   | update k c value size ext add rem rw cc dp ds => exact update_inv12_partial h hn hi
   | commit k i size move => exact commit_inv12 h hi
   | respPass k i D m V dp cr => exact respPass_inv12 h hi
-  | close fin k c X per => exact close_inv12 h hi
+  | close fin k c X per rates => exact close_inv12 h hi
   | wpLock k j v => exact wpLock_inv12 h hi
   | rpLock j v => exact inv12_frame (rpLock_frame h) hi
   | rpUnlock j v => exact inv12_frame (rpUnlock_frame h) hi
@@ -123,7 +123,7 @@ theorem cp_eq_sum_reachable_partial {s : State} (h : ReachableNoDeadReplace s) :
 
 /-- closing empties: allocation node and challenge pool node are both gone. -/
 theorem close_empties {s s' : State} {fin : Bool} {k : Nat} {c : Caller} {X : Nat} {per : List (Nat × Nat)}
-    (h : stepRel s (.close fin k c X per) s') : s'.allocs k = none ∧ s'.cps k = none :=
+    {rates : List (Nat × Nat × Nat)} (h : stepRel s (.close fin k c X per rates) s') : s'.allocs k = none ∧ s'.cps k = none :=
   close_removes h
 
 /-- The killed branch of `replaceBlobber` breaks the equality whenever the removed blobber's challenge value is
@@ -219,8 +219,8 @@ example : Inv12 witnessState ∧ ∃ s', stepRel witnessState (.commit 0 0 10 64
 
 /-- a close is admissible in the witness state after expiry (owner finalizes; nothing paid to blobbers) -/
 example : ∃ s', stepRel { witnessState with now := init.now + TU, sps := fun i => if i < 3 then some ⟨offer 2048 10, 20000000000, 0, false⟩ else none }
-    (.close true 0 (.client 3) 0 [(0, 0), (0, 0)]) s' := by
+    (.close true 0 (.client 3) 0 [(0, 0), (0, 0)] [(1, 1, 0), (1, 1, 0)]) s' := by
   unfold stepRel step
-  simp [close, witnessState, init, offersReleasable, BA.offer, sumCr, closeBlobbers, credit, minStake, payOut, Map.set]
+  simp [close, witnessState, init, offersReleasable, BA.offer, sumCr, closeBlobbers, credit, minStake, payOut, Map.set, payBounded, sumCc, costOf]
 
 end ZChain.Storage
